@@ -1209,8 +1209,8 @@ func (ex *Exec) recsFor(key string) []*CallRec {
 	case key == "send":
 		out = ex.sends
 	default:
-		for _, r := range ex.callLog {
-			if r.Key == key {
+		for i, r := range ex.callLog {
+			if r.Key == key && i >= ex.logFrom {
 				out = append(out, r)
 			}
 		}
@@ -1229,7 +1229,21 @@ func strArg(e Expr) string {
 // calls("key"): number of calls on the current path.
 func (ex *Exec) evalCalls(env *Env, args []Expr) Val {
 	key := strArg(args[0])
-	return ex.countRecs(env, ex.recsFor(key), "")
+	recs := ex.recsFor(key)
+	if len(recs) == 0 {
+		// a clause about a call that is never recorded is vacuous or an absence claim: make it visible
+		n := fmt.Sprintf("calls(%q): no such call is recorded in %s (absence claim, or a misspelt key)", key, fnKey(ex.top))
+		dup := false
+		for _, x := range ex.notes {
+			if x == n {
+				dup = true
+			}
+		}
+		if !dup {
+			ex.notes = append(ex.notes, n)
+		}
+	}
+	return ex.countRecs(env, recs, "")
 }
 
 func (ex *Exec) pickCall(env *Env, args []Expr) (*CallRec, []*CallRec) {
